@@ -19,6 +19,7 @@ type TT struct {
 type CEnv struct {
 	e     *Enc
 	vars  map[string]TT
+	cells map[string]cellVar // locals that live in a heap cell (captured by a closure): the name denotes the cell's content in the current state
 	cur   *State
 	old   *State
 	pre   *State // loop invariants: the state at loop entry (before the loop's havoc)
@@ -28,6 +29,13 @@ type CEnv struct {
 	pkg   string
 	guard Term
 	depth int
+}
+
+type cellVar struct {
+	key  string
+	ref  Term
+	sort string
+	typ  types.Type
 }
 
 const sortNil = "NIL"
@@ -73,6 +81,9 @@ func (c *CEnv) eval(x CExpr) (TT, error) {
 	case *CStr:
 		return TT{e.strConst(n.V), types.Typ[types.String]}, nil
 	case *CIdent:
+		if cv, ok := c.cells[n.Name]; ok {
+			return TT{sel(e.heapGet(c.cur, cv.key), cv.ref, cv.sort), cv.typ}, nil
+		}
 		if v, ok := c.vars[n.Name]; ok {
 			return v, nil
 		}
